@@ -12,7 +12,7 @@ from __future__ import annotations
 import ast
 import re
 
-from mc.common import Ctx, pmap, rotate
+from mc.common import Ctx, pmap, rotate, pmap_tagged
 import mc.fd  # noqa: F401  (binds fandango to /repo/src)
 
 LEVEL = "translation_validation"
@@ -277,7 +277,7 @@ def culprit(pid: str, bad_d1: set) -> str:
 def run(ctx: Ctx) -> None:
     progs = rotate(programs(ctx.tier), ctx.seed)
     ctx.log(f"{len(progs)} programs")
-    results = pmap(work, progs, chunk=16)
+    results = pmap_tagged(work, progs, chunk=16)
     accepted = rejected = notpy = 0
     rej = {}
     viols = []
